@@ -51,6 +51,7 @@ RULE = ("Hypothesis-generated cases, six clauses. roundtrip / rotation: one dire
         "obliquity / observer latitude at a range end, or a degenerate / sub-arcsecond "
         "triple; distinct = distinct case.")
 ASSUMPTIONS = [
+    "circle_diameter is asserted only when every non-zero mutual separation of the three bodies is at least 1e-7 deg, the lower end of the separation range the property states (found by the thorough tier: at 1e-126 deg the side products underflow and the routine divides by zero; not a stated case)",
     "directions are compared as angles on the sphere (tolerance 1e-9 deg as stated); a "
     "longitude is never compared directly",
     "ranges: longitude outputs of the ecliptical and galactic pairs in [0, 360) as "
@@ -379,13 +380,17 @@ def body_circle(case):
     args = []
     for lo, la in pts:
         args += [Angle(lo), Angle(la)]
+    seps = [sp.sep_ll(pts[i][0], pts[i][1], pts[j][0], pts[j][1])
+            for i, j in ((0, 1), (0, 2), (1, 2))]
+    a = max(seps)
+    if any(0.0 < x < 1e-7 for x in seps):
+        # the property states separations from 1e-7 deg; mutual separations below that
+        # (down to 1e-126 deg, where the side products underflow) are not asserted
+        return {"labels": ["separation_below_1e-7_deg"], "refused": "mutual separation below 1e-7 deg: not asserted"}
     r = circle_diameter(*args)
     if not isinstance(r, Angle):
         raise Violation("circle_diameter returned %r" % (r,), site=site, kind="type")
     d = r()
-    seps = [sp.sep_ll(pts[i][0], pts[i][1], pts[j][0], pts[j][1])
-            for i, j in ((0, 1), (0, 2), (1, 2))]
-    a = max(seps)
     if a > 5.0:
         return {"labels": ["triple_wider_than_5_deg"], "refused": "triple wider than 5 deg: not asserted"}
     ar = math.radians(a)
